@@ -63,8 +63,17 @@ auto impl(type_list<Result...> /*unused*/, Senders&&... senders) {
                    return just_void_or_done(false);
                  };
 
+                 // A sender that completes with done also claims the
+                 // 'first completion' so that values of lagging senders are
+                 // discarded rather than becoming the result.
+                 auto claim_done = [&onceFlag]() noexcept {
+                   std::call_once(onceFlag, []() noexcept {});
+                   return just_done();
+                 };
+
                  return when_all(
-                            (std::move(senders) | let_value(store_result))...) |
+                            (std::move(senders) | let_value(store_result) |
+                             let_done(claim_done))...) |
                      let_done([&optResult]() noexcept {
                           return just_void_or_done(optResult.has_value());
                         }) |
